@@ -34,7 +34,7 @@ TOL = 1e-6
 
 
 # appended to RULE in the evidence (vlib/runner.py)
-RULE_ADDENDUM = 'Added in round 5: leaks whose start / end instants coincide exactly at an off-grid instant.'
+RULE_ADDENDUM = 'Added in round 5: leaks whose start / end instants coincide exactly at an off-grid instant. Round 6: every tenth case is a rig with leaks at millimetre-to-centimetre pressures (junction just below the grade line, tank leaking at a level of a few cm).'
 
 def n_cases(tier):
     return 200 if tier == 'quick' else 3000
